@@ -440,6 +440,8 @@ class AddrWireWorld(World):
 
     def _render(self, ctx, a, v):
         b, t, u = VARIANTS[v]
+        if (a.wc + v) % 2:
+            return call(a.to_str, is_user_friendly=True, is_url_safe=u, is_bounceable=b, is_test_only=t)     # keyword spelling
         return call(a.to_str, True, u, b, t)
 
     # ---- crowd leg: several related addresses in one process ----
